@@ -656,12 +656,9 @@ def report_defect(ctx, key, still, replay):
                       replay, True)
     elif ctx.kf.listed(ctx.prop, key):
         ctx.known_finding(key, REPORTED[key], True, replay)
-    elif key in REPORTED:
-        ctx.log("DEFECT reproduced (reported, proposed-fixes/C15-*.diff; not yet in known-findings.txt): %s: %s"
-                % (key, REPORTED[key]))
-        ctx.extra.setdefault("reported_defects_reproduced", []).append(key)
     else:
-        ctx.known_finding(key, "unlisted", True, replay)
+        # neither listed nor fixed: a violation (ctx.known_finding reports unlisted defects as VIOLATION)
+        ctx.known_finding(key, REPORTED.get(key, "unlisted"), True, replay)
 
 
 def flame_witness_case():
